@@ -133,6 +133,33 @@ package index
 //@ func (iter *Iterator) Next() (rec Record, done bool, err error)  property C16
 //@   exclusive index iteration is single-threaded by documentation
 
+//@ func (rli *RecordListIter) Done() (r bool)  property C09
+//@   ensures r == (rli.pos >= len(rli.records))
+
+//@ func (rli *RecordListIter) Next() (rec Record)
+//@   abstract gap GAP-RL: the byte-level encoding implements the record view
+//@   trusted decoding of one record (ReadRecord) is part of GAP-RL; only the cursor movement matters here
+//@   modifies rli.pos
+//@   ensures rli.pos > old(rli.pos)
+
+// Iterator.Next (C09): iteration reports done only when every bucket has been passed, never
+// moves backwards, and every bucket it passes without yielding a record is empty (zero
+// position) or holds an empty record list (gE, ghost).
+//@ func (iter *Iterator) Next() (rec Record, done bool, err error)  property C09
+//@   local requires iter.index != nil && inv(iter.index) && iter.index.sizeBits <= 31 && iter.bucketIndex <= len(iter.index.buckets)
+//@   modifies iter.bucketIndex, iter.rlIter, fp(FC), heap("index.RecordListIter")
+//@   ghost var gE (Array Int Bool) = nopos()
+//@   ghost at after call index.RecordListIter.Done#1: gE = ite($r0, gE[iter.bucketIndex - 1 := true], gE)
+// input invariant: every record of an index file carries at least the 4-byte bucket prefix
+//@   assume at after call (encoding/binary.littleEndian).Uint32#0: @format-index-record-size $r0 >= 4 && $r0 < 1073741824
+//@   ensures @done-means-all-buckets-passed done ==> err == nil && iter.bucketIndex >= len(iter.index.buckets) && iter.rlIter == nil
+//@   ensures @never-backwards iter.bucketIndex >= old(iter.bucketIndex) && iter.bucketIndex <= len(iter.index.buckets)
+//@   internal ensures @passed-buckets-empty err == nil ==> forall b int :: old(iter.bucketIndex) <= b && b < iter.bucketIndex && (done || b + 1 < iter.bucketIndex) ==> iter.index.buckets[b] == 0 || gE[b]
+//@   loop 0 invariant @outer iter.rlIter == nil && iter.index == old(iter.index) && held(iter.index.flushLock) && unlocked(iter.index.bucketLk) && inv(iter.index) && old(iter.bucketIndex) <= iter.bucketIndex && iter.bucketIndex <= len(iter.index.buckets)
+//@   loop 0 invariant @outer-passed forall b int :: old(iter.bucketIndex) <= b && b < iter.bucketIndex ==> iter.index.buckets[b] == 0 || gE[b]
+//@   loop 1 invariant @inner iter.rlIter == nil && iter.index == old(iter.index) && held(iter.index.flushLock) && rheld(iter.index.bucketLk) && inv(iter.index) && old(iter.bucketIndex) <= iter.bucketIndex && iter.bucketIndex <= len(iter.index.buckets)
+//@   loop 1 invariant @inner-passed forall b int :: old(iter.bucketIndex) <= b && b < iter.bucketIndex ==> iter.index.buckets[b] == 0 || gE[b]
+
 // Index.Close (C02, C03, C17): stop the collector and wait for it, then flush, then close the
 // file, then (only if all of that succeeded) save the bucket snapshot; a second Close does nothing.
 //@ func (idx *Index) Close() (err error)  property C02 C03 C17
@@ -595,3 +622,24 @@ package index
 //@   assert at before call os.Truncate#1: @cut-at-record-start $a0 == fname(basePath, fileNum) && $a1 == gpos && gB[gpos]
 //@   internal ensures @ends-at-boundary err == nil && gscanned && !gtruncfailed ==> (gend >= 0 ==> gB[gend]) && (gend < 0 ==> gB[file.$size])
 //@   loop 0 invariant @cursor pos >= 0 && pos <= file.$size && file.$size < (1 << 62) && gB[pos] && file != nil && fresh(file) && len(sizeBuffer) == 4 && fresh(sizeBuffer) && (baseof(scratch) == 0 || fresh(scratch)) && gend == 0 - 1 && !gtruncfailed
+
+// Open / MoveFiles as seen by package store (translateIndex, OpenStore): opaque constructors.
+//@ func Open(ctx context.Context, path string, primary primary.PrimaryStorage, indexSizeBits uint8, maxFileSize uint32, gcInterval time.Duration, gcTimeLimit time.Duration, fileCache *filecache.FileCache) (idx *Index, err error)
+//@   trusted T5 contract pending for the constructor body (header check, upgrade, snapshot load or scan, collector start); see DESIGN.md 10
+//@   modifies ctx.$done
+//@   fresh idx
+//@   ensures err == nil ==> idx != nil && idx.Primary == primary && !idx.$closed && !idx.$pending && !oncedone(idx.closeOnce)
+//@   ensures err == nil ==> (idx.gcStop == nil || fresh(idx.gcStop)) && (idx.gcDone == nil || fresh(idx.gcDone))
+//@   ensures err != nil ==> idx == nil
+
+//@ func MoveFiles(indexPath string, newDir string) (err error)
+//@   trusted renames every file of the index into newDir (os.Rename per file; not atomic as a whole: finding F15)
+//@   pure
+
+//@ func (idx *Index) NewIterator() (it *Iterator)  property C09
+//@   fresh it
+//@   ensures it != nil && it.index == idx && it.bucketIndex == 0 && it.rlIter == nil
+
+//@ func (iter *Iterator) Progress() (p float64)
+//@   trusted floating-point progress percentage (logging only)
+//@   pure
